@@ -336,7 +336,7 @@ func c07ExecRun(r *vrep.R, cs c07ExecCase, timeout time.Duration) {
 func c07ExecCases(thorough bool) []c07ExecCase {
 	if !thorough {
 		return []c07ExecCase{
-			{Cfg: c07Cfg{N: 3, H: 2, Excluded: []int{2}}, Join: true},
+			{Cfg: c07Cfg{N: 3, H: 2, Excluded: []int{3}}, Join: true}, // the highest seat: boundary of every index check
 			{Cfg: c07Cfg{N: 3, H: 2, Excluded: []int{1}}, Inject: true, LateSeat: 3},
 		}
 	}
